@@ -54,6 +54,14 @@ def jobs(tier):
                         continue
                     for p1, p2 in [(0, 1), (1, 1), (0, 0)]:
                         out.append(("gvc.props.c05", "ob_product", dict(D=D, k1=k1, p1=p1, k2=k2, p2=p2, gs=ch)))
+    # dependencies: "convolution with arbitrary filters" is part of the algebra; its relational contract is owned by C01
+    # (two cheap type combinations incl. pseudo x pseudo are re-run here); the library action == act_spec is owned by C02
+    for (k, p, kf, pf) in [(0, 1, 1, 1), (1, 1, 0, 0)]:
+        cfg = dict(k=k, p=p, kf=kf, pf=pf, M=[3, 3], rdil=1, ldil=None, padding="TORUS", flags=[True, True])
+        for gs_ in ([0, 1, 2, 3], [4, 5, 6, 7]):
+            out.append(("gvc.props.c01", "ob_covariant", dict(D=2, cfg=cfg, gs=gs_)))
+    from .common import dep_jobs
+    out += dep_jobs("gvc.props.c02", lambda fn, kw: fn == "ob_entry" and kw["D"] >= 2)
     return out
 
 
